@@ -135,6 +135,9 @@ def setattr_(it, obj, name, v):
     if isinstance(obj, Packed):
         raise Unsupported('store to attribute of packed value (write-back not supported here)')
     if isinstance(obj, Obj):
+        g = it.hooks.get('on_setattr')
+        if g is not None:
+            g(it, obj, name, v)      # ghost monitors (e.g. ownership of messages handed to send())
         hook = getattr(obj, 'setattr_hook', None)
         if hook is not None and hook(it, obj, name, v):
             return
